@@ -31,6 +31,9 @@ class Unsupported(Exception):
     pass
 
 
+INERT_CALLS = ("_verif.emit", "LOGGER.info", "LOGGER.debug", "LOGGER.warning")
+
+
 def cname(n):
     return n + "_" if n in KEYWORDS else n
 
@@ -131,6 +134,8 @@ class Fn:
         if isinstance(e, ast.Name):
             if e.id not in env:
                 raise Unsupported("unknown name %s" % e.id)
+            if isinstance(env[e.id], tuple) and env[e.id][0] == "alias":
+                raise Unsupported("function alias %s used as a value" % e.id)
             return [], cname(e.id), env[e.id]
         if isinstance(e, ast.Dict) and not e.keys:
             return [], "[]", ("dict", None)
@@ -179,8 +184,10 @@ class Fn:
             b2, c2, t2 = self.expr(e.comparators[0], env)
             op = type(e.ops[0])
             if t1 == "F" and t2 == "F" and op in (ast.Lt, ast.Gt):
-                # float comparison: only the strict order is rendered (a > b is b < a)
+                # float comparison: a > b is b < a
                 return b1 + b2, ("(fltb %s %s)" % ((c1, c2) if op is ast.Lt else (c2, c1))), "bool"
+            if t1 == "F" and t2 == "F" and op in (ast.LtE, ast.GtE) and "fleb" in self.externs:
+                return b1 + b2, ("(fleb %s %s)" % ((c1, c2) if op is ast.LtE else (c2, c1))), "bool"
             if t1 != "int" or t2 != "int":
                 raise Unsupported("comparison of %s and %s" % (t1, t2))
             tbl = {ast.Lt: "(%s <? %s)", ast.LtE: "(%s <=? %s)", ast.Gt: "(%s >? %s)", ast.GtE: "(%s >=? %s)",
@@ -366,6 +373,18 @@ class Fn:
 
     def call(self, e, env):
         fn = ast.unparse(e.func)
+        if isinstance(e.func, ast.Name) and isinstance(env.get(e.func.id), tuple) and env[e.func.id][0] == "alias":
+            fn = env[e.func.id][1]      # a local name bound to a library function (norm = np.linalg.norm)
+        if fn == "np.linalg.norm" and "np_norm" in self.externs and len(e.args) == 1 and not e.keywords:
+            b, c, t = self.expr(e.args[0], env)
+            if t == ("list", "F"):
+                return b, "(np_norm %s)" % c, "F"
+        if fn == "math.sqrt" and "math_sqrt" in self.externs and len(e.args) == 1 and not e.keywords:
+            b, c, t = self.expr(e.args[0], env)
+            if t == "int":
+                return b, "(math_sqrt (of_int %s))" % c, "F"
+            if t == "F":
+                return b, "(math_sqrt %s)" % c, "F"
         if fn in self.sigs:
             if e.keywords:
                 raise Unsupported("keyword arguments in call of %s" % fn)
@@ -593,6 +612,10 @@ class Fn:
                 env2 = dict(env)
                 env2[a] = ("dict", tv)
                 return self.wrap(bi + bv, "let %s := (py_dict_set %s %s %s) in\n  %s" % (cname(a), cname(a), ci, cv, nxt(env2)))
+            if isinstance(tgt, ast.Name) and ast.unparse(s.value) in ("np.linalg.norm",):
+                env2 = dict(env)
+                env2[tgt.id] = ("alias", ast.unparse(s.value))
+                return nxt(env2)
             if isinstance(tgt, ast.Name):
                 b, c, t = self.expr(s.value, env)
                 env2 = dict(env)
@@ -652,6 +675,8 @@ class Fn:
                     return self.wrap(bi + b1 + b2 + bv, "%s <- np_set_row_slice %s %s %s %s %s ;;\n  %s" % (
                         cname(a), cname(a), ci, c1, c2, cv, nxt(env)))
             raise Unsupported("assignment %s" % ast.unparse(s))
+        if isinstance(s, ast.Expr) and isinstance(s.value, ast.Call) and ast.unparse(s.value.func) in INERT_CALLS:
+            return nxt(env)      # logging / guarded hooks: trusted white list (as in skeleton mode)
         if isinstance(s, ast.Expr) and isinstance(s.value, ast.Call) and isinstance(s.value.func, ast.Attribute) \
                 and isinstance(s.value.func.value, ast.Name) and s.value.func.value.id in env:
             a = s.value.func.value.id
@@ -837,7 +862,7 @@ TARGETS = {
                                  {("assign_point_cluster_labels", "label_assignment_cost"): "arr2",
                                   ("assign_point_cluster_labels", "label_switching_cost"): "nd",
                                   ("assign_point_cluster_labels", "return"): ("tuple", [("list", "int"), "F"])}),
-    "solver": ("admm/solver.py", ["soft_threshold_prox", "admm_update_u", "admm_update_z"],
+    "solver": ("admm/solver.py", ["soft_threshold_prox", "admm_update_u", "admm_update_z", "check_convergence"],
                {("soft_threshold_prox", "scaled_point_sum"): "F", ("soft_threshold_prox", "lambda_sum"): "F",
                 ("soft_threshold_prox", "rho_times_r"): "F", ("soft_threshold_prox", "return"): "F",
                 ("admm_update_u", "u"): ("list", "F"), ("admm_update_u", "x"): ("list", "F"), ("admm_update_u", "z"): ("list", "F"),
@@ -845,7 +870,13 @@ TARGETS = {
                 ("admm_update_z", "args"): ("record", "admm_args",
                                             {"window_size": "int", "num_data_series": "int", "rho": "F", "sparsity_weight": "LAM"}, "aa_"),
                 ("admm_update_z", "u"): ("list", "F"), ("admm_update_z", "x"): ("list", "F"),
-                ("admm_update_z", "return"): ("list", "F")}),
+                ("admm_update_z", "return"): ("list", "F"),
+                ("check_convergence", "args"): ("record", "admm_tol_args",
+                                                {"absolute_tolerance": "F", "relative_tolerance": "F", "rho": "F", "verbose": "bool"},
+                                                "at_", "(admm_tol_args F)"),
+                ("check_convergence", "u"): ("list", "F"), ("check_convergence", "x"): ("list", "F"),
+                ("check_convergence", "z"): ("list", "F"), ("check_convergence", "z_old"): ("list", "F"),
+                ("check_convergence", "return"): ("tuple", ["bool", "F", "F", "F", "F"])}),
     "cluster_metrics": ("cluster_metrics.py", ["bayesian_information_criterion"],
                         {("bayesian_information_criterion", "model"):
                          ("record", "bic_model",
@@ -872,8 +903,14 @@ KERNEL_MODULES = {
         "vars": ("  Variable L : Type.                            (* the sparsity weight as the caller passed it (opaque) *)\n"
                  "  Variable np_sum : list F -> F.                (* np.sum on a 1-D float64 array (pairwise summation) *)\n"
                  "  (* compute_lambda_sum(lambda, block, row, col, N, W): not translated (isinstance dispatch); uninterpreted *)\n"
-                 "  Variable compute_lambda_sum : L -> Z -> Z -> Z -> Z -> Z -> res F.\n"),
+                 "  Variable compute_lambda_sum : L -> Z -> Z -> Z -> Z -> Z -> res F.\n"
+                 "  Variable fleb : F -> F -> bool.               (* <= on float64 *)\n"
+                 "  Variable flit : string -> F.                  (* a float literal, named by its decimal text *)\n"
+                 "  Variable math_sqrt : F -> F.                  (* math.sqrt *)\n"
+                 "  Variable np_norm : list F -> F.               (* np.linalg.norm on a 1-D array (BLAS nrm2) *)\n"),
         "externs": {
+            "fleb": ([], None, "fleb", False), "flit": ([], None, "flit", False),
+            "math_sqrt": ([], None, "math_sqrt", False), "np_norm": ([], None, "np_norm", False),
             "compute_lambda_sum": (["LAM", "int", "int", "int", "int", "int"], "F", "compute_lambda_sum", True),
             "unique_values.locations_compressed": (["int"] * 5, ("list", "int"), "g_locations_compressed", True),
         }},
@@ -974,7 +1011,6 @@ def translate_module(mod, src_root):
 # ---------------------------------------------------------------------------------------------------------------
 # SKELETON mode: the control flow of an object-heavy function with every call left uninterpreted (Gen/PySkel.v)
 # ---------------------------------------------------------------------------------------------------------------
-INERT_CALLS = ("_verif.emit", "LOGGER.info", "LOGGER.debug", "LOGGER.warning")
 
 
 class Skel:
